@@ -82,6 +82,11 @@ def run(pid, tier, seed, replay=None):
     # ---- random formulas (learning, backjumping, restarts fire)
     cases += drv.gen_random(rng, 400 if tier == "quick" else 6000)
     cases += drv.gen_budget(rng, 120 if tier == "quick" else 1500)
+    # the repository's own tests as an input source: every solve_sat call they make (incl. CNFs produced by the CP encoder)
+    from vlib import corpus
+    rc = corpus.sat_cases(corpus.capture(["tests/solvors/test_sat.py", "tests/solvors/test_cp.py"]))
+    ck.extra["inputs_recorded_from_repository_tests"] = len(rc)
+    cases += rc
     if tier == "thorough":
         for p, h in ((4, 3), (5, 4), (6, 5)):
             for lf in (1, 3):
